@@ -38,7 +38,7 @@ where the blocker lives.  Multi-stage comprehensions
 import dataclasses
 from typing import Any
 
-from ..analysis import DefineUse, DefineUseAnalysis, SyntaxCheck
+from ..analysis import AssignDef, DefineUse, DefineUseAnalysis, SyntaxCheck
 from ..ast.fpyast import (
     AllOf,
     And,
@@ -57,7 +57,8 @@ from ..ast.fpyast import (
     WhileStmt,
 )
 from ..ast.visitor import DefaultTransformVisitor
-from ..utils import Gensym
+from ..utils import Gensym, NamedId
+from .rename_target import RenameTarget
 
 
 @dataclasses.dataclass
@@ -78,11 +79,25 @@ class _ReduceFusionInstance(DefaultTransformVisitor):
     :meth:`ReduceFusion.apply` call."""
 
     func: FuncDef
+    def_use: DefineUseAnalysis
     gensym: Gensym
 
     def __init__(self, func: FuncDef, def_use: DefineUseAnalysis):
         self.func = func
+        self.def_use = def_use
         self.gensym = Gensym(reserved=def_use.names())
+
+    def _clashing_targets(self, comp: ListComp) -> dict[NamedId, NamedId]:
+        """Fresh names for the comprehension targets that are also bound by
+        a statement or an argument: a comprehension target is local to the
+        comprehension, a ``for`` target is not, so the fused loop would
+        overwrite the outer variable."""
+        rename: dict[NamedId, NamedId] = {}
+        for name in comp.targets[0].names():
+            defs = self.def_use.name_to_defs.get(name, ())
+            if any(isinstance(d, AssignDef) and not isinstance(d.site, ListComp) for d in defs):
+                rename[name] = self.gensym.refresh(name)
+        return rename
 
     def apply(self) -> FuncDef:
         return self._visit_function(self.func, None)
@@ -132,6 +147,13 @@ class _ReduceFusionInstance(DefaultTransformVisitor):
             Assign(elt, None, elt_expr, e.loc),
             Assign(acc, None, combine, e.loc),
         ])
+
+        rename = self._clashing_targets(comp)
+        if rename:
+            loop = RenameTarget.apply_block(StmtBlock([ForStmt(target, iterable, body, e.loc)]), rename).stmts[0]
+            assert isinstance(loop, ForStmt)
+            # the iterable is evaluated outside the comprehension's scope
+            target, body = loop.target, loop.body
 
         ctx.stmts.append(Assign(acc, None, BoolVal(not is_any, e.loc), e.loc))
         ctx.stmts.append(ForStmt(target, iterable, body, e.loc))
